@@ -20,6 +20,7 @@ from typing import (
     cast,
     Iterable,
     TypeVar,
+    AbstractSet,
 )  # pylint: disable=unused-import
 
 from _ast import If
@@ -301,12 +302,22 @@ class Visitor(ast.NodeVisitor):
     # pylint: disable=invalid-name
     # pylint: disable=missing-docstring
 
-    def __init__(self, variable_lookup: List[Mapping[str, Any]]) -> None:
+    def __init__(
+        self,
+        variable_lookup: List[Mapping[str, Any]],
+        code_names: Optional[Iterable[str]] = None,
+    ) -> None:
         """
         Initialize.
 
         :param variable_lookup: list of lookup tables to look-up the values of the variables, sorted by precedence
+        :param code_names:
+            names used in the compiled code of the condition (including the private names mangled by Python)
         """
+        self._code_names = (
+            frozenset() if code_names is None else frozenset(code_names)
+        )  # type: AbstractSet[str]
+
         # _name_to_value maps the variable names to variable values.
         # This is important for Load contexts as well as Store contexts in, e.g., named expressions.
         self._name_to_value = dict()  # type: Dict[str, Any]
@@ -830,8 +841,23 @@ class Visitor(ast.NodeVisitor):
             if not node.attr.startswith("__") or node.attr.endswith("__"):
                 raise
 
-            for cls in type(value).__mro__:
-                mangled = "_{}{}".format(cls.__name__.lstrip("_"), node.attr)
+            # The compiled code of the condition names the mangled attribute, so we try that one first. This matters
+            # when several classes in the hierarchy of the object define the same private name.
+            mangled_in_code = [
+                name
+                for name in sorted(self._code_names)
+                if name.startswith("_")
+                and not name.startswith("__")
+                and name.endswith(node.attr)
+                and len(name) > len(node.attr) + 1
+            ]
+
+            candidates = mangled_in_code + [
+                "_{}{}".format(cls.__name__.lstrip("_"), node.attr)
+                for cls in type(value).__mro__
+            ]
+
+            for mangled in candidates:
                 if hasattr(value, mangled):
                     result = getattr(value, mangled)
                     break
